@@ -49,7 +49,7 @@ class Reporter:
 
     def require(self, cond, fn, key, detail, loc=None, trace=None, okdetail=None):
         if cond:
-            self.ok(fn, key, okdetail if okdetail is not None else detail, loc)
+            self.ok(fn, key, okdetail if okdetail is not None else "verified; would report: " + detail, loc)
         else:
             self.bad(fn, key, detail, loc, trace)
         return cond
